@@ -162,10 +162,4 @@ def PduHeader.verifyLengthAndChecksum (h : PduHeader) (d : Bytes) : Py Nat := do
       throw .crc
   pure h.packetLen
 
-/-- `AbstractPduBase.__eq__`: PDU type, file flag, CRC flag, both entity IDs and packet length. -/
-def PduHeader.beq (a b : PduHeader) : Bool :=
-  decide (a.pduType = b.pduType) && decide (a.conf.fileFlag = b.conf.fileFlag)
-    && decide (a.conf.crcFlag = b.conf.crcFlag) && decide (a.conf.dest = b.conf.dest)
-    && decide (a.conf.source = b.conf.source) && decide (a.packetLen = b.packetLen)
-
 end SpVerif.CfdpHeader
